@@ -8,7 +8,8 @@ from .. import AnalysisError
 from ..astutil import is_name, norm_cond
 from ..cfg import CFG
 from ..engine import Analysis
-from ..kinds import anything, arg_for, call_nodes, calls_to, normal_only, param_positions, q, strict, strict_but, token_assert
+from ..astutil import Deps
+from ..kinds import anything, arg_for, call_nodes, calls_to, classify_handler_for, normal_only, param_positions, q, strict, strict_but, token_assert, token_assert_for
 from ..loader import FunctionInfo, dotted, stmt_text
 
 ASSUMPTIONS = [
@@ -97,14 +98,19 @@ def check(an: Analysis) -> None:
             from ..loader import parent
 
             p = parent(c)
-            if not (isinstance(p, ast.Assign) and len(p.targets) == 1 and dotted(p.targets[0]) == "self._token"):
+            stored = isinstance(p, (ast.Assign, ast.AnnAssign)) and dotted(p.targets[0] if isinstance(p, ast.Assign) else p.target) == "self._token"
+            if not stored and isinstance(p, (ast.Assign, ast.AnnAssign)):
+                t0 = p.targets[0] if isinstance(p, ast.Assign) else p.target
+                if isinstance(t0, ast.Name):
+                    stored = any(isinstance(s2, (ast.Assign, ast.AnnAssign)) and dotted(s2.targets[0] if isinstance(s2, ast.Assign) else s2.target) == "self._token" and is_name(s2.value, t0.id) for s2 in f.own_nodes())
+            if not stored:
                 ob.fail(f, c, "token returned by ContextVar.set is not stored in self._token")
         for f, c in resets:
             ob.inst(f, c, "reset")
             if not (f.cls is ci and f.name in exits and f.outer is None):
                 ob.fail(f, c, f"{short}._context.reset outside {short}.{'/'.join(exits)}")
                 continue
-            if not (len(c.args) == 1 and dotted(c.args[0]) == "self._token" and not c.keywords):
+            if not (len(c.args) == 1 and not c.keywords and (dotted(c.args[0]) == "self._token" or Deps(prog, f).origins(c.args[0]) == {"attr:self._token"})):
                 ob.fail(f, c, "ContextVar.reset argument is not self._token")
         for name in enters:
             f = prog.fn(f"{cq}.{name}")
@@ -123,7 +129,7 @@ def check(an: Analysis) -> None:
             if not own:
                 ob.fail(f, None, f"{short}.{name} never resets {short}._context")
                 continue
-            w = g.must_pass(lambda n: n in own, raising=strict_but(token_assert))
+            w = g.must_pass(lambda n: n in own, raising=strict_but(token_assert_for(prog, f)))
             if w is not None:
                 ob.fail(f, own[0].ast, f"a path leaves {short}.{name} without resetting the context variable", CFG.show_path(w))
             stores = [
@@ -270,11 +276,20 @@ def group_errors_silenced(an: Analysis, ob) -> None:
                 "errors raised by TaskGroup.__aexit__ that are not Exception (a BaseExceptionGroup of child failures, the group wrapping GeneratorExit on aclose) escape and replace the body's own exception",
                 CFG.show_path([aw, through[0]]),
             )
+        from ..cfg import exc_is_sub
+
         for t, lab in aw.succ:
-            if lab == "exc" and t.kind == "handler" and not catches_cancellation(g, t.ast):  # type: ignore[arg-type]
-                for kind, node, path in classify_handler(g, t.ast):  # type: ignore[arg-type]
+            if lab != "exc" or t.kind != "handler":
+                continue
+            classes = g.handler_classes(t.ast)  # type: ignore[arg-type]
+            for exc_class in ("Exception", "ExceptionGroup", "BaseExceptionGroup", "GeneratorExit"):
+                if not any(exc_is_sub(exc_class, c) for c in classes):
+                    continue
+                if any(exc_is_sub(exc_class, c) for prev, _ in aw.succ if prev.kind == "handler" and prev is not t and aw.succ.index((prev, "exc")) < aw.succ.index((t, "exc")) for c in g.handler_classes(prev.ast)):  # type: ignore[arg-type]
+                    continue  # an earlier handler takes it
+                for kind, node, path in classify_handler_for(g, t.ast, exc_class):  # type: ignore[arg-type]
                     if kind != "swallow":
-                        ob.fail(f, t.ast, f"the silencing handler {kind}s instead of completing normally", CFG.show_path(path))
+                        ob.fail(f, t.ast, f"a {exc_class} raised by the task group exit is not silenced (the handler {kind}s): it replaces the body's own exception", CFG.show_path(path))
 
 
 def disposables_exit_attempted(an: Analysis, ob) -> None:
